@@ -214,6 +214,14 @@ def run_case(concepts, case, spec):
                 common.tie(lat2, ctx2)
                 with core.monitor_code():
                     judge_order(lat2, cap, 'unpickled')
+    if hash(gen.table_key(case)) % 4 == 0:      # a second lattice built on the very same context object
+        lat2 = call(concepts.lattices.Lattice, ctx)
+        if lat2 is not RAISED:
+            with core.monitor_code():
+                common.drop_views()
+                judge_order(common.tie(lat2, ctx), cap, 'second_lattice')
+                common.drop_views()
+            COL.count('second_lattice_on_same_context')
     # session: queries on the new lattice, then re-judge an older live lattice
     members = list(lat)
     for _ in range(6):
